@@ -990,7 +990,9 @@ func runC08(c *Ctx) {
 					}
 				case sameField(stt.Field(i), x.fS):
 					src := &Term{Op: "field", Args: []*Term{a}, Obj: x.fS}
-					if v.Op != "mkslice" || !isLenOf(v.Args[0], src) {
+					if v.Op == "call" && v.Sym == "slices.Clone" && len(v.Args) == 1 && v.Args[0].Key() == src.Key() {
+						// the library's own copying helper, decided by the clone-helper rule (dependency closure)
+					} else if v.Op != "mkslice" || !isLenOf(v.Args[0], src) {
 						ok, why = false, "the clone's backing slice is not a fresh make of the same length: "+v.String()
 					} else {
 						copied := false
